@@ -97,9 +97,10 @@ Definition oracle_pk (ps : list Z) (vs : list (list Z)) (ct_flat dec_flat : list
 
 Definition oracle_c01 (code : Z) (ps : list Z) (vs outs : list (list Z)) : Z :=
   match code with
-  | 1001 => oracle_glwe ps vs (v outs 0) (v outs 1)
+  | 1001 | 1005 => oracle_glwe ps vs (v outs 0) (v outs 1)
   | 1002 => oracle_lwe ps vs (v outs 0) (v outs 1)
   | 1003 => oracle_pk ps vs (v outs 1) (v outs 2)
   | 1004 => oracle_glwe ps vs (v outs 1) (v outs 2)
+  | 1006 => ob (nthZ (v outs 0) 0 =? 1)   (* determinism: the ciphertext is a function of (plaintext, key, seeds) only *)
   | _ => 2
   end.
